@@ -23,8 +23,11 @@ type fnCase struct {
 
 // catalogWithPast fills a catalog through a history: 0 = set the pairs on a fresh catalog; 1 = two other keys
 // come first, every observer is used, the two keys are removed again; 2 = the catalog holds other keys, every
-// observer is used, RemoveAll, then the pairs are set.  The content is the same in all three cases.
-func catalogWithPast(hist int, n int, fill func(cat col.CatalogLike[int, int])) col.CatalogLike[int, int] {
+// observer is used, RemoveAll, then the pairs are set; 3 = the pairs are set in the opposite order, every
+// observer is used, ReverseValues.  The content is the same in all four cases.
+type valueSetter interface{ SetValue(k, v int) }
+
+func catalogWithPast(hist int, n int, fill func(cat valueSetter)) col.CatalogLike[int, int] {
 	C := col.Catalog[int, int](lib.Notation())
 	cat := C.Make()
 	observe := func() {
@@ -52,11 +55,38 @@ func catalogWithPast(hist int, n int, fill func(cat col.CatalogLike[int, int])) 
 		observe()
 		cat.RemoveAll()
 		fill(cat)
+	case 3:
+		// the pairs are set in the opposite order, every observer is used, then the catalog is reversed
+		var order []int
+		fill(recorder{cat, &order})
+		cat.RemoveAll()
+		values := map[int]int{}
+		fill(collector(values))
+		for i := len(order) - 1; i >= 0; i-- {
+			cat.SetValue(order[i], values[order[i]])
+		}
+		observe()
+		cat.ReverseValues()
 	default:
 		fill(cat)
 	}
 	return cat
 }
+
+// recorder notes the order in which keys are set; collector only remembers the values
+type recorder struct {
+	col.CatalogLike[int, int]
+	order *[]int
+}
+
+func (r recorder) SetValue(k, v int) {
+	*r.order = append(*r.order, k)
+	r.CatalogLike.SetValue(k, v)
+}
+
+type collector map[int]int
+
+func (c collector) SetValue(k, v int) { c[k] = v }
 
 func pairsString(ps []kv) string {
 	s := "["
@@ -237,7 +267,7 @@ func execFnOther(c fnCase, _ core.Source) (res core.Result) {
 				}
 				pairs = append(pairs, kv{k, v})
 			}
-			cat := catalogWithPast(c.Hist, len(pairs), func(cat col.CatalogLike[int, int]) {
+			cat := catalogWithPast(c.Hist, len(pairs), func(cat valueSetter) {
 				for _, q := range pairs {
 					cat.SetValue(q.K, q.V)
 				}
@@ -340,7 +370,7 @@ func execFnOther(c fnCase, _ core.Source) (res core.Result) {
 			}
 			pa = append(pa, kv{k, v})
 		}
-		cat := catalogWithPast(c.Hist, len(pa), func(cat col.CatalogLike[int, int]) {
+		cat := catalogWithPast(c.Hist, len(pa), func(cat valueSetter) {
 			for _, q := range pa {
 				cat.SetValue(q.K, q.V)
 			}
@@ -477,7 +507,7 @@ func genFnExhaustive(s core.Source) fnCase {
 		}
 	case "Merge":
 		c.Zero = s.Choose(2, "zero") == 1
-		c.Hist = s.Choose(3, "hist")
+		c.Hist = s.Choose(4, "hist")
 		c.A = enumOrderedSubset(s, 4, "a")
 		if s.Choose(2, "alias") == 1 {
 			c.Alias = true
@@ -487,7 +517,7 @@ func genFnExhaustive(s core.Source) fnCase {
 	case "Extract":
 		c.A = enumOrderedSubset(s, 3, "a") // keys 0..2 present (some of them), key 3.. absent
 		c.Zero = s.Choose(2, "zero") == 1
-		c.Hist = s.Choose(3, "hist")
+		c.Hist = s.Choose(4, "hist")
 		c.B = enumList(s, 4, 3, "keys")
 	}
 	return c
@@ -503,13 +533,13 @@ func genFnRandom(s core.Source) fnCase {
 		c.B = enumList(s, 8, 12, "b")
 	case "Merge":
 		c.Zero = s.Choose(2, "zero") == 1
-		c.Hist = s.Choose(3, "hist")
+		c.Hist = s.Choose(4, "hist")
 		c.A = enumOrderedSubset(s, 7, "a")
 		c.B = enumOrderedSubset(s, 7, "b")
 	case "Extract":
 		c.A = enumOrderedSubset(s, 6, "a")
 		c.Zero = s.Choose(2, "zero") == 1
-		c.Hist = s.Choose(3, "hist")
+		c.Hist = s.Choose(4, "hist")
 		c.B = enumList(s, 8, 10, "keys")
 	}
 	if c.Alias {
